@@ -44,6 +44,22 @@ if TYPE_CHECKING:
     from octave_mcp.core.schema_extractor import SchemaDefinition
 
 
+# Names of the rules compile_schema defines itself; field rules must not reuse them
+_STRUCTURAL_RULE_NAMES = frozenset(
+    {
+        "ws",
+        "field",
+        "content",
+        "document",
+        "root",
+        "envelope-start",
+        "envelope-end",
+        "meta-block",
+        "meta-content",
+        "meta-field",
+    }
+)
+
 # CONTRACT field parsing pattern: FIELD[name]::constraints
 _CONTRACT_FIELD_PATTERN = re.compile(r"^FIELD\[([^\]]+)\]::(.+)$")
 
@@ -329,6 +345,24 @@ class GBNFCompiler:
         result = result.strip("_")
 
         return result or "unnamed_field"
+
+    def _unique_rule_name(self, base: str, used: set[str]) -> str:
+        """Return ``base`` or, if taken, ``base_2``, ``base_3``, ...; records the result in ``used``.
+
+        Args:
+            base: Sanitized rule name
+            used: Names already defined in the grammar being built (updated in place)
+
+        Returns:
+            A rule name not defined so far in this grammar
+        """
+        name = base
+        suffix = 2
+        while name in used:
+            name = f"{base}_{suffix}"
+            suffix += 1
+        used.add(name)
+        return name
 
     def compile_constraint(self, constraint: Constraint) -> str:
         """Compile a single constraint to GBNF rule fragment.
@@ -620,9 +654,12 @@ class GBNFCompiler:
 
         # Build field rules
         field_rule_names: list[str] = []
+        # Rule names must be unique: two field names can sanitize alike (A.B / A_DOT_B) and a
+        # field can be called like one of the grammar's own rules (CONTENT, ROOT, WS, ...)
+        used_rule_names: set[str] = set(_STRUCTURAL_RULE_NAMES)
 
         for field_name, field_def in schema.fields.items():
-            rule_name = self._sanitize_rule_name(field_name)
+            rule_name = self._unique_rule_name(self._sanitize_rule_name(field_name), used_rule_names)
             field_rule_names.append(rule_name)
 
             # Get constraint pattern
